@@ -15,6 +15,7 @@
                       this file defines, later in evaluation order than a top-level read (3). *)
 From Coq Require Import List NArith ZArith Bool.
 From LH Require Import Base.Bytes Model.Lexer Model.Ast.
+From LH Require Model.Scope.
 Import ListNotations.
 Local Open Scope N_scope.
 
@@ -164,12 +165,15 @@ Definition sys_alias (c : cfg) (r : option exp) : bool :=
 Inductive binding := BLocal (d : loc) | BGlobal.
 
 Inductive dkind := DParam | DLoop | DLocal | DLocalFun.
-Record decl := mkDecl {
+Record decl := mkDecl8 {
   d_name : name; d_loc : loc; d_kind : dkind;
   d_close : bool;              (* <close> attribute *)
   d_value : option exp;        (* the expression the declaration binds the name to (if any) *)
-  d_empty : bool               (* declared without value / nil / {} / `n or nil` *)
+  d_empty : bool;              (* declared without value / nil / {} / `n or nil` *)
+  d_init : option loc;         (* `local` statement with initialisers: the region behind the names up to its end *)
+  d_tab : option loc           (* the table constructor that initialises the name *)
 }.
+Notation mkDecl n l k c v e := (mkDecl8 n l k c v e None None).
 
 Inductive occ :=
 | ORead  (n : name) (l : loc) (b : binding) (flv : N)
@@ -185,17 +189,18 @@ Fixpoint lookup (n : name) (en : env) : binding :=
 Definition bind_names (ns : list name) (ls : list loc) (en : env) : env := rev (combine ns ls) ++ en.
 
 (* declarations of one `local` statement *)
-Fixpoint local_decls (ns : list name) (ls : list loc) (ats : list attr) (es : list exp) (lastcall : option exp) : list decl :=
+Fixpoint local_decls (il : option loc) (ns : list name) (ls : list loc) (ats : list attr) (es : list exp)
+  (lastcall : option exp) : list decl :=
   match ns, ls, ats with
   | n :: ns', l :: ls', a :: ats' =>
     let cl := match a with AttrClose => true | _ => false end in
     match es with
     | e :: es' =>
-      mkDecl n l DLocal cl (Some e) (local_refer_empty n e)
-      :: local_decls ns' ls' ats' es' (match es' with [] => if is_call_exp e then Some e else None | _ => None end)
+      mkDecl8 n l DLocal cl (Some e) (local_refer_empty n e) il (Scope.tab_of_exp e)
+      :: local_decls il ns' ls' ats' es' (match es' with [] => if is_call_exp e then Some e else None | _ => None end)
     | [] =>
-      mkDecl n l DLocal cl lastcall (match lastcall with Some _ => false | None => true end)
-      :: local_decls ns' ls' ats' [] lastcall
+      mkDecl8 n l DLocal cl lastcall (match lastcall with Some _ => false | None => true end) il None
+      :: local_decls il ns' ls' ats' [] lastcall
     end
   | _, _, _ => []
   end.
@@ -285,7 +290,7 @@ with d_stat (s : stat) {struct s} : list decl :=
     d_exp e1 ++ d_exp e2 ++ d_exp e3 ++ mkDecl n vl DLoop false None false :: d_block b
   | SForIn ns ls es b _ => flat_map d_exp es ++ plain_decls DLoop ns ls ++ d_block b
   | SAssign _ es _ => flat_map d_exp es
-  | SLocal ns ls ats es _ => flat_map d_exp es ++ local_decls ns ls ats es None
+  | SLocal ns ls ats es l => flat_map d_exp es ++ local_decls (Scope.init_loc ns ls es l) ns ls ats es None
   | SLocalFunc n nl f _ => mkDecl n nl DLocalFun false (Some f) false :: d_exp f
   | _ => []
   end
